@@ -9,10 +9,10 @@ undecodable fields answer `bad-request` — the model never defaults.
 -/
 
 def handlers : List (String → List String → Option String) :=
-  [FuModel.Drv.Xargs.handle]
+  [FuModel.Drv.Xargs.handle, FuModel.Drv.Xargs.handleRun]
 
 def preds : List (String × (List String → List String → Option Bool)) :=
-  [("C05", FuModel.Drv.Xargs.pred)]
+  [("C05", FuModel.Drv.Xargs.pred), ("C04", FuModel.Drv.Xargs.predC04)]
 
 def splitAt (xs : List String) (sep : String) : List String × List String :=
   (xs.takeWhile (· != sep), (xs.dropWhile (· != sep)).drop 1)
